@@ -120,8 +120,8 @@ theorem program_converges_leaf (ind : Ind F) (hl : IsLeaf ind) (K : Contract ind
   rw [runIndicator_refines ind hl K _ [] (by simpa using hres.plain)]
   simp
 
-/-- **C14, partial: all covered kinds** (`Covered`: every shipped leaf class except the Amorph
-wrapper) as standalone indicators on the base timeframe: programs converge to the batch state. -/
+/-- **C14, partial: all covered kinds** (`Covered`: every shipped leaf class, the Amorph wrapper of
+the pattern / movement functions included) as standalone indicators on the base timeframe: programs converge to the batch state. -/
 theorem C14_partial (k : Kind F) (name : String) (round : Nat) (hk : Covered name k)
     (init : List (Candle F)) (hinit : RawInput init) (ops : List (Op F)) (s : IndState F)
     (hruns : Runs ({ tree := mkTop k name round, mgr := { cfg := {}, candles := init } } : IndState F) ops s) :
